@@ -63,6 +63,13 @@ def _matrix(name, t):
     C = R + 1j * I
     kind = name.rstrip('01')
     bits = [int(c) for c in name[len(kind):]]
+    if kind in ('rz', 'rzs'):
+        # off-diagonal entries that CANCEL in the row and in the column of a dof (+a and -a couplings): the dof is
+        # coupled although its signed row and column sums are zero
+        d = np.diag(R).copy()
+        if kind == 'rz':
+            return np.array([[d[0], 1.0, -1.0], [-1.0, d[1], 1.0], [1.0, -1.0, d[2]]])      # diagonal + skew circulant
+        return np.array([[d[0], 0.5, -0.5], [0.5, d[1], 0.7], [-0.5, 0.7, d[2]]])            # symmetric, +a/-a on dof 0
     if kind in ('r', 'c'):
         V = R if kind == 'r' else C
         A = np.diag(np.diag(V)).astype(V.dtype)
@@ -101,12 +108,16 @@ def all_matrix_names():
         s = ''.join(map(str, bits))
         names += ['rs' + s, 'ch' + s, 'cs' + s]
     names.sort(key=lambda nm: (nm.count('1'), len(nm), nm))
-    return names
+    return names + ['rz111111', 'rzs111']
 
 
 def other_class(name):
     kind = name.rstrip('01')
     bits = name[len(kind):]
+    if kind == 'rz':
+        return ['c111111', 'rs111']
+    if kind == 'rzs':
+        return ['r111111', 'ch111']
     if kind == 'r':
         return ['c' + bits, 'rs111']
     if kind == 'c':
@@ -484,7 +495,8 @@ def generate(tier, seed):
                 yield {'mat': nm, 'table': t, 'inner': inner, 'flags': 'none', 'prefix': [op1],
                        'tails': [['X']], 'rhs_alphabet': RHS_SMALL}
     yield {'__level__': 'depth2/magnitudes'}
-    mag_mats = [nm for nm in names if nm in ('r111111', 'rs111', 'c111111', 'ch111', 'cs111', 'r100100', 'r000001', 'rs001')]
+    mag_mats = [nm for nm in names if nm in ('r111111', 'rs111', 'c111111', 'ch111', 'cs111', 'r100100', 'r000001', 'rs001',
+                                             'rz111111', 'rzs111')]
     for nm in (names if tier != 'quick' else mag_mats):
         for op1 in solve_ops(RHS_SCALE):
             yield {'mat': nm, 'table': t, 'inner': 'ref', 'flags': 'none', 'prefix': [op1],
